@@ -86,6 +86,23 @@ Theorem C18_names_attribute : forall (obj attr : string),
 Proof. exact attribute_line_literal. Qed.
 Print Assumptions C18_names_attribute.
 
+(* a string constant passed to a user C++ function of several parameters (add_cpp_function metadata) reaches its
+   place character for character even when it contains the names of the other parameters: all parameters are
+   substituted in one pass and inserted text is never searched again.  (General statement about
+   replace_whole_words for arbitrary lines: C11 subst_is_simultaneous.) *)
+Theorem C18_names_user_arg : forall (ps : string * (string * string)) (obj s later : string), In ps user_params ->
+  exists line, user_call_line (fst ps) (fst (snd ps)) (snd (snd ps)) obj (CStr s) later = OK line /\
+    literal_at ("double result = g_labelled_value(*" +++ obj +++ ", ") line = Some (LStr s, ", " +++ later +++ ");").
+Proof. exact user_call_literal. Qed.
+Print Assumptions C18_names_user_arg.
+
+(* ... which a parameter-by-parameter substitution would break: "pt bin" would arrive as "pt 3" *)
+Theorem C18_sequential_subst_refuted :
+  exists line, subst_sequential [("jet", "i_obj1"); ("label", cpp_string_literal "pt bin"); ("bin", "3")] (user_template "jet" "label" "bin") = line /\
+    literal_at "double result = g_labelled_value(*i_obj1, " line = Some (LStr "pt 3", ", 3);").
+Proof. exact sequential_subst_refuted. Qed.
+Print Assumptions C18_sequential_subst_refuted.
+
 Theorem C18_names_column : forall col var : string,
   literal_at "myTree->Branch(" (branch_line (col, var)) = Some (LStr col, ", &" +++ var +++ ");").
 Proof. exact branch_line_literal. Qed.
